@@ -128,8 +128,18 @@ theorem runEntry_struct (cfg : Cfg) : ∀ (f : Nat) (fn : Fn) (e : Entry) (x : D
   | succ f ih =>
     intro fn e x d
     cases e with
-    | dep hs nx => exact ⟨rfl, rfl⟩
-    | noNext => exact ⟨rfl, rfl⟩
+    | dep hs nx =>
+      rw [runEntry_dep]
+      cases depRes cfg fn.mm.meths hs x with
+      | handler h => exact ih fn (.meth h) x d
+      | fallthrough =>
+        cases nx with
+        | noNext => exact ⟨rfl, rfl⟩
+        | meth id => exact ih fn (.meth id) x d
+        | dep hs' nx' => exact ih fn (.dep hs' nx') x d
+      | ambiguous => exact ⟨rfl, rfl⟩
+      | raised => exact ⟨rfl, rfl⟩
+    | noNext => rw [runEntry_noNext]; exact ⟨rfl, rfl⟩
     | meth id =>
       rw [runEntry_meth]
       cases findDef fn id with
